@@ -1,9 +1,9 @@
 (** * More on-site electricity: the whole building (C14)
 
     The carrier-level statements of Proofs/PvFacts.v assembled over the carriers of the building, for the
-    regulatory factor sets ([reg_set]) and without load matching. *)
+    regulatory factor sets ([reg_set]), with or without load matching. *)
 From Cteepbd Require Import Model.Factors Proofs.StepFacts Proofs.ColFacts Proofs.EpFacts Proofs.Breakdown Proofs.DataEquiv
-  Proofs.NeededKeys Proofs.CtxFacts Proofs.ClosedForm Proofs.RerFacts Proofs.PvFacts.
+  Proofs.NeededKeys Proofs.CtxFacts Proofs.ClosedForm Proofs.RerFacts Proofs.PvFacts Proofs.LmMono Proofs.LmCogen.
 Open Scope Qc_scope.
 
 Section Append.
@@ -99,7 +99,26 @@ Proof.
   apply (cgn_sum_nonneg fs0 c (S n) false Hrs Hn _ _ E).
 Qed.
 
+(** the annual facts of the electricity carrier, with or without load matching *)
+Lemma pv_facts (lm : bool) data i dv cm :
+  nonneg_data data -> dom_data data -> Forall (fun v => 0 <= v) dv -> Forall zg dv -> filter (has_carrier ELECTRICIDAD) data <> [] ->
+  let x := mk_ctx ELECTRICIDAD lm data in let x' := mk_ctx ELECTRICIDAD lm (data ++ [EProd i EL_INSITU dv cm]) in
+  a_del_grid x' <= a_del_grid x /\ a_exp_src x EL_COGEN <= a_exp_src x' EL_COGEN
+  /\ a_exp_ne x + a_exp_grid x <= a_exp_ne x' + a_exp_grid x' /\ a_cgnus x' = a_cgnus x
+  /\ used_on ELECTRICIDAD lm data = a_used_src x EL_INSITU
+  /\ used_on ELECTRICIDAD lm (data ++ [EProd i EL_INSITU dv cm]) = a_used_src x' EL_INSITU.
+Proof.
+  intros Hn Hd Hdn Hdz Hne. destruct lm; cbv zeta.
+  - destruct (g_used_on data i dv cm Hne) as [O O'].
+    repeat split; [exact (g_del_grid_mono data i dv cm Hn Hd Hdn Hdz Hne)|exact (g_exp_chp_mono data i dv cm Hn Hd Hdn Hdz Hne)
+                  |exact (g_exp_total_mono data i dv cm Hn Hd Hdn Hdz Hne)|exact (g_cgnus_same data i dv cm Hne)|exact O|exact O'].
+  - repeat split; [exact (del_grid_mono data i dv cm Hn Hd Hdn Hdz Hne)|exact (exp_chp_mono data i dv cm Hn Hd Hdn Hdz Hne)
+                  |exact (exp_total_mono data i dv cm Hn Hd Hdn Hdz Hne)|exact (cgnus_same data i dv cm Hne)
+                  |exact (used_on_x data)|exact (used_on_x' data i dv cm Hne)].
+Qed.
+
 Section Building.
+  Variable lm : bool.
   Variables (fs0 : list Factor) (c : Components) (i : Z) (dv : list Qc) (cm : str) (k area : Qc) (n : nat) (ep ep' : EP).
   Let data := c_data c.
   Let e := EProd i EL_INSITU dv cm.
@@ -115,8 +134,8 @@ Section Building.
   Hypothesis Hel : In ELECTRICIDAD (avail_carriers data).
   Hypothesis Hne : filter (has_carrier ELECTRICIDAD) data <> [].
   Hypothesis Hk : 0 <= k <= 1.
-  Hypothesis Hep : energy_performance c fs0 k area false = Ok ep.
-  Hypothesis Hep' : energy_performance c' fs0 k area false = Ok ep'.
+  Hypothesis Hep : energy_performance c fs0 k area lm = Ok ep.
+  Hypothesis Hep' : energy_performance c' fs0 k area lm = Ok ep'.
 
   Lemma wf' : wf n (c_data c').
   Proof. unfold c'. cbn [c_data]. apply Forall_app. split; [exact Hwf|]. constructor; [exact Hlen|constructor]. Qed.
@@ -136,31 +155,30 @@ Section Building.
     /\ a_del_grid (bc_ctx b') <= a_del_grid (bc_ctx b).
   Proof.
     intros Hb Hb' Hcr.
-    destruct (bal_closed fs0 c k area false n ep Hrs Hn Hd Hwf Hpos Hep b Hb) as (g & G & Gn & Cx & A & B & _).
+    destruct (bal_closed fs0 c k area lm n ep Hrs Hn Hd Hwf Hpos Hep b Hb) as (g & G & Gn & Cx & A & B & _).
     pose proof (nonneg_data' (c_data c) i dv cm Hn Hdn) as Hn'. pose proof (dom_data' (c_data c) i dv cm Hd Hdz) as Hd'.
-    destruct (bal_closed fs0 c' k area false n ep' Hrs Hn' Hd' wf' Hpos Hep' b' Hb') as (g' & G' & _ & Cx' & A' & B' & _).
+    destruct (bal_closed fs0 c' k area lm n ep' Hrs Hn' Hd' wf' Hpos Hep' b' Hb') as (g' & G' & _ & Cx' & A' & B' & _).
     rewrite <- Hcr in G', Cx', A', B'. rewrite G in G'. injection G' as <-.
     destruct (ep_ok _ _ _ _ _ _ Hep) as (_ & _ & _ & _ & _ & _ & Kb & _). destruct (ep_ok _ _ _ _ _ _ Hep') as (_ & _ & _ & _ & _ & _ & Kb' & _).
     rewrite Forall_forall in Kb, Kb'. rewrite A, A', B, B', (Kb b Hb), (Kb' b' Hb'), phi_same, Cx, Cx'.
     set (cr := cx_cr (bc_ctx b)) in *. unfold c', data, e in *. cbn [c_data] in *.
     destruct (Carrier_eq_dec cr ELECTRICIDAD) as [E|N].
-    - rewrite E. unfold NA, XCHP. change (cx_cr (mk_ctx ELECTRICIDAD false (c_data c))) with ELECTRICIDAD.
-      rewrite (used_on_x (c_data c)), (used_on_x' (c_data c) i dv cm Hne).
-      pose proof (del_grid_mono (c_data c) i dv cm Hn Hd Hdn Hdz Hne) as M1. pose proof (exp_chp_mono (c_data c) i dv cm Hn Hd Hdn Hdz Hne) as M2.
-      pose proof (exp_total_mono (c_data c) i dv cm Hn Hd Hdn Hdz Hne) as M3. pose proof (cgnus_same (c_data c) i dv cm Hne) as M4.
+    - rewrite E. unfold NA, XCHP. change (cx_cr (mk_ctx ELECTRICIDAD lm (c_data c))) with ELECTRICIDAD.
+      destruct (pv_facts lm (c_data c) i dv cm Hn Hd Hdn Hdz Hne) as (M1 & M2 & M3 & M4 & O & O'). cbv zeta in *.
+      rewrite O, O'.
       rewrite M4. destruct Gn as (G1 & G2 & G3).
       assert (Pn : rnc_nonneg (phi fs0 c)) by (apply phi_nonneg; assumption).
       destruct Pn as (P1 & P2 & P3). destruct Hk as [K0 K1].
       revert M1 M2 M3.
-      generalize (a_del_grid (mk_ctx ELECTRICIDAD false (c_data c))) (a_del_grid (mk_ctx ELECTRICIDAD false (c_data c ++ [EProd i EL_INSITU dv cm])))
-                 (a_exp_src (mk_ctx ELECTRICIDAD false (c_data c)) EL_COGEN) (a_exp_src (mk_ctx ELECTRICIDAD false (c_data c ++ [EProd i EL_INSITU dv cm])) EL_COGEN)
-                 (a_exp_ne (mk_ctx ELECTRICIDAD false (c_data c)) + a_exp_grid (mk_ctx ELECTRICIDAD false (c_data c)))
-                 (a_exp_ne (mk_ctx ELECTRICIDAD false (c_data c ++ [EProd i EL_INSITU dv cm])) + a_exp_grid (mk_ctx ELECTRICIDAD false (c_data c ++ [EProd i EL_INSITU dv cm])))
-                 (a_used_src (mk_ctx ELECTRICIDAD false (c_data c)) EL_INSITU) (a_used_src (mk_ctx ELECTRICIDAD false (c_data c ++ [EProd i EL_INSITU dv cm])) EL_INSITU)
-                 (a_exp_src (mk_ctx ELECTRICIDAD false (c_data c)) EL_INSITU + a_exp_src (mk_ctx ELECTRICIDAD false (c_data c)) PS_TERMOSOLAR + a_exp_src (mk_ctx ELECTRICIDAD false (c_data c)) PS_EAMBIENTE)
-                 (a_exp_src (mk_ctx ELECTRICIDAD false (c_data c ++ [EProd i EL_INSITU dv cm])) EL_INSITU + a_exp_src (mk_ctx ELECTRICIDAD false (c_data c ++ [EProd i EL_INSITU dv cm])) PS_TERMOSOLAR
-                  + a_exp_src (mk_ctx ELECTRICIDAD false (c_data c ++ [EProd i EL_INSITU dv cm])) PS_EAMBIENTE)
-                 (a_cgnus (mk_ctx ELECTRICIDAD false (c_data c))).
+      generalize (a_del_grid (mk_ctx ELECTRICIDAD lm (c_data c))) (a_del_grid (mk_ctx ELECTRICIDAD lm (c_data c ++ [EProd i EL_INSITU dv cm])))
+                 (a_exp_src (mk_ctx ELECTRICIDAD lm (c_data c)) EL_COGEN) (a_exp_src (mk_ctx ELECTRICIDAD lm (c_data c ++ [EProd i EL_INSITU dv cm])) EL_COGEN)
+                 (a_exp_ne (mk_ctx ELECTRICIDAD lm (c_data c)) + a_exp_grid (mk_ctx ELECTRICIDAD lm (c_data c)))
+                 (a_exp_ne (mk_ctx ELECTRICIDAD lm (c_data c ++ [EProd i EL_INSITU dv cm])) + a_exp_grid (mk_ctx ELECTRICIDAD lm (c_data c ++ [EProd i EL_INSITU dv cm])))
+                 (a_used_src (mk_ctx ELECTRICIDAD lm (c_data c)) EL_INSITU) (a_used_src (mk_ctx ELECTRICIDAD lm (c_data c ++ [EProd i EL_INSITU dv cm])) EL_INSITU)
+                 (a_exp_src (mk_ctx ELECTRICIDAD lm (c_data c)) EL_INSITU + a_exp_src (mk_ctx ELECTRICIDAD lm (c_data c)) PS_TERMOSOLAR + a_exp_src (mk_ctx ELECTRICIDAD lm (c_data c)) PS_EAMBIENTE)
+                 (a_exp_src (mk_ctx ELECTRICIDAD lm (c_data c ++ [EProd i EL_INSITU dv cm])) EL_INSITU + a_exp_src (mk_ctx ELECTRICIDAD lm (c_data c ++ [EProd i EL_INSITU dv cm])) PS_TERMOSOLAR
+                  + a_exp_src (mk_ctx ELECTRICIDAD lm (c_data c ++ [EProd i EL_INSITU dv cm])) PS_EAMBIENTE)
+                 (a_cgnus (mk_ctx ELECTRICIDAD lm (c_data c))).
       intros dg dg' xc xc' ex ex' up up' xi xi' cg M1 M2 M3.
       destruct g as [gr gn gc]. destruct (phi fs0 c) as [pr pn pc]. cbn [ren nren co2 rsub radd rscale one] in *.
       assert (K00 : (0:Qc) <= 0) by apply Qcle_refl. assert (K01 : (0:Qc) <= 1) by qlra.
@@ -170,7 +188,7 @@ Section Building.
       + exact (mono_lin dg dg' xc xc' ex ex' cg up up' xi xi' gn pn k M1 M2 M3 G2 P2 K0 K1).
       + exact (mono_lin dg dg' xc xc' ex ex' cg up up' xi xi' gc pc k M1 M2 M3 G3 P3 K0 K1).
       + exact M1.
-    - unfold NA, XCHP, used_on. change (cx_cr (mk_ctx cr false (c_data c))) with cr. rewrite (ctx_other (c_data c) i dv cm cr false N). repeat split; apply Qcle_refl.
+    - unfold NA, XCHP, used_on. change (cx_cr (mk_ctx cr lm (c_data c))) with cr. rewrite (ctx_other (c_data c) i dv cm cr lm N). repeat split; apply Qcle_refl.
   Qed.
 
   (** more on-site electricity production: the building's non-renewable primary energy, its emissions (step A and
